@@ -21,6 +21,8 @@ pub struct SimHandler {
     pub early_fired: Cell<u32>,
     pub recompute_fired: Cell<u32>,
     pub boxes_consulted: Cell<u32>,
+    pub after_sweep_seen: Cell<bool>,
+    pub remaining_after_sweep: Cell<usize>,
     pub yielder: RefCell<Option<Rc<dyn Fn()>>>,
 }
 
@@ -48,6 +50,10 @@ impl Handler for SimHandler {
             Site::EarlyBreak => self.early_fired.set(self.early_fired.get() + 1),
             Site::Recompute => self.recompute_fired.set(self.recompute_fired.get() + 1),
         }
+    }
+    fn after_sweep(&self, remaining: usize) {
+        self.after_sweep_seen.set(true);
+        self.remaining_after_sweep.set(remaining);
     }
     fn disable_shortcut(&self) -> bool {
         self.boxes_consulted.set(self.boxes_consulted.get() + 1);
